@@ -677,7 +677,8 @@ PROPS = {
             "it writes; the constant pattern that detects a trailing offset recognises every +-HHMM from -1200 to +1445 and no offset-less form; DateTime/Date compare "
             "through the wrapped time types; mixed date arms of scalar_eq/scalar_cmp are mirrored; strftime's str slices are on character boundaries. "
             "Every zero-filled placeholder of strftime.rs is right-aligned (R-FMT.numeric, read off the expanded AST's format_args! nodes: a left-aligned zero fill "
-            "turned 5 ms into `500`, fixed as F-FRAC). NOT decided: padding/width arithmetic and the sign handling of negative numerics under the `-`/`_` flags, "
+            "turned 5 ms into `500`, fixed as F-FRAC). On every path to the numeric print `value.abs()` either value >= 0 is known or '-' was pushed, with the padding-flag tests correlated (R-SIGN). "
+            "NOT decided: padding/width arithmetic, the 12-hour mapping, "
             "calendar arithmetic inside `time`."
         ),
         "trusted": TRUST_COMMON + ["time crate accessors mean what their names say"],
